@@ -41,6 +41,8 @@ def spWill : SpPc → Bool
 def Good (s : St) : Prop :=
   (∃ w ∈ s.workers, helpW w = true) ∨ s.token = true ∨ (∃ sb ∈ s.subs, subTok sb = true) ∨ spWill s.sp = true
 
+instance (s : St) : Decidable (Good s) := by unfold Good; exact inferInstance
+
 structure InvG (s : St) : Prop where
   noX : s.closed = false → ∀ w ∈ s.workers, w ≠ .exitDec false
   spE : ∀ e, s.sp = .computed e → 1 ≤ e
@@ -298,5 +300,53 @@ theorem step_invG {c : Cfg} {s t : St} {a : Act} (hs : 1 ≤ c.standby) (hm : 1 
     (h : step c s a = some t) (hw : InvW c s) (hi : InvG s) : InvG t := by
   cases a <;> simp only [step] at h <;>
     first | exact stepSub_invG h hi | exact stepPool_invG hs hm h hw hi | exact stepW_invG hs hx h hw hi
+
+/-! ### the invariants hold in every reachable state -/
+theorem init_invW (c : Cfg) : InvW c init := ⟨rfl, rfl, Nat.zero_le _⟩
+theorem init_invJ : InvJ init := ⟨fun _ => rfl, fun _ => rfl⟩
+theorem init_invS : InvS init :=
+  ⟨fun j => by simp [init, accOf], fun j hj => by simp [init] at hj, fun i sb h => by simp [init] at h,
+   fun i sb h => by simp [init] at h, fun i sb h => by simp [init] at h, fun i sb h => by simp [init] at h⟩
+theorem init_invP : InvP init := ⟨fun _ => rfl, fun _ => Nat.le_refl _⟩
+theorem init_invG : InvG init :=
+  ⟨fun _ w hw => by simp [init] at hw, fun e h => by simp [init] at h, fun i e h => by simp [init] at h,
+   fun _ hq => by simp [init] at hq⟩
+
+theorem reach_invW {c : Cfg} {s : St} (h : Reach c s) : InvW c s := by
+  induction h with
+  | init => exact init_invW c
+  | step _ hs ih => exact step_invW hs ih
+theorem reach_invJ {c : Cfg} {s : St} (h : Reach c s) : InvJ s := by
+  induction h with
+  | init => exact init_invJ
+  | step _ hs ih => exact step_invJ hs ih
+theorem reach_invS {c : Cfg} {s : St} (h : Reach c s) : InvS s := by
+  induction h with
+  | init => exact init_invS
+  | step _ hs ih => exact step_invS hs ih
+theorem reach_invP {c : Cfg} {s : St} (h : Reach c s) : InvP s := by
+  induction h with
+  | init => exact init_invP
+  | step _ hs ih => exact step_invP hs ih
+theorem reach_invG {c : Cfg} {s : St} (hs : 1 ≤ c.standby) (hm : 1 ≤ c.max) (hx : c.atomicExpiry = true)
+    (h : Reach c s) : InvG s := by
+  induction h with
+  | init => exact init_invG
+  | step hr hst ih => exact step_invG hs hm hx hst (reach_invW hr) ih
+
+theorem reach_runActs {c : Cfg} {s t : St} (acts : List Act) (hr : Reach c s) (h : runActs c s acts = some t) :
+    Reach c t := by
+  induction acts generalizing s with
+  | nil => simp [runActs] at h; subst h; exact hr
+  | cons a as ih =>
+    simp only [runActs] at h
+    split at h
+    · next u hu => exact ih (Reach.step hr hu) h
+    · simp at h
+
+theorem accOf_le_one (subs : List Sub) (j : Nat) : accOf subs j ≤ 1 := by
+  unfold accOf; split
+  · split <;> omega
+  · omega
 
 end FpgoVerif.C09
